@@ -215,3 +215,121 @@ def twins_c16(cl, c):
     t2 = list(t)
     t2[9] = "0"
     return [(twin_id(" ".join(t2), 1), "unbounded")]
+
+
+# ----------------------------------------------------------------------------- twin relations
+
+EXPR_TAGS = {"act", "andc", "notc", "stc", "and", "not", "any", "cls", "ch", "lab", "lit", "plus", "star", "opt", "rec", "ref", "seq", "thr"}
+
+
+def block_errs(errs):
+    return tuple(e for e in errs if not (e.endswith(": invalid encoding") or ": no match found, expected: " in e
+                                         or e.endswith("max number of expressions parsed")))
+
+
+def rel_c10(cl, tl, rel, ra, rb):
+    a = (ra["kind"], repr(ra["val"]), tuple(ra["errs"]))
+    b = (rb["kind"], repr(rb["val"]), tuple(rb["errs"]))
+    if a != b:
+        return ("viol", "standard: %r  optimized: %r" % (a, b))
+    return None
+
+
+def pure_domain(cl):
+    """C06's domain: code blocks are pure functions of text, pos and their labels; no #{}, no throw/recover"""
+    if " stc " in cl or " thr " in cl or " rec " in cl:
+        return False
+    for w in (" calli", " even", " sget ", " gget ", " sge ", " gge ", " sset ", " sinc ", " smut ", " gset ", " ginc ", " gmut ", " at ", " panic "):
+        if w in cl:
+            return False
+    return True
+
+
+def has_label_args(cl):
+    t = cl.split(" ")
+    for i, x in enumerate(t):
+        if x == "blk" and i + 3 < len(t) and t[i + 2] in ("a", "p", "s") and t[i + 3] != "0":
+            return True
+    return False
+
+
+def rel_c06(cl, tl, rel, ra, rb):
+    if rel in ("debug", "stats"):
+        fa = (ra["kind"], repr(ra["val"]), tuple(ra["errs"]), ra["cnt"], repr(ra["state"]), repr(ra["glob"]), repr(ra["trace"]))
+        fb = (rb["kind"], repr(rb["val"]), tuple(rb["errs"]), rb["cnt"], repr(rb["state"]), repr(rb["glob"]), repr(rb["trace"]))
+        if fa != fb:
+            return ("viol", "result changes when %s is switched" % rel)
+        return None
+    c = core.parse_case_head(cl)
+    if c["maxExpr"] != 0 or not pure_domain(cl) or (c["l"] and " 1 1 " in cl):
+        return None
+    a = (ra["kind"], repr(ra["val"]), len(ra["errs"]) == 0, block_errs(ra["errs"]))
+    b = (rb["kind"], repr(rb["val"]), len(rb["errs"]) == 0, block_errs(rb["errs"]))
+    if a != b:
+        if has_label_args(cl):
+            return ("known", "D7", "Memoize changes the result of a grammar whose blocks take label arguments")
+        return ("viol", "Memoize changes the result: %r vs %r" % (a, b))
+    return None
+
+
+def orc_c06_bound(cl, r):
+    c = core.parse_case_head(cl)
+    if not c["memoize"] or c["o"] or r["kind"] not in ("ret", "panic"):
+        return
+    t = c["toks"]
+    # no rule marked left-recursive
+    nodes = sum(1 for x in t if x in EXPR_TAGS)
+    if c["l"] or c["maxExpr"] != 0:
+        return      # budgeted cases may be left-recursive / non-terminating by construction
+    bound = nodes * (len(c["input"]) + 1)
+    if r["cnt"] > bound:
+        yield ("viol", "with Memoize %d expressions were evaluated, more than nodes*(len+1) = %d*%d" % (r["cnt"], nodes, len(c["input"]) + 1))
+
+
+def phase2_c16(wd, header, sr):
+    """unbounded twins of the budgeted parses that stayed within budget: identical result"""
+    import os
+    from . import h1
+    pairs = []
+    res = {}
+    cases = {}
+    for f in os.listdir(wd):
+        if f.endswith(".impl"):
+            for line in open(os.path.join(wd, f)):
+                sp = line.split(" ", 2)
+                res[sp[1]] = line.rstrip("\n")
+        if f.endswith(".cases"):
+            for line in open(os.path.join(wd, f)):
+                if line.startswith("case "):
+                    cases[line.split(" ", 2)[1]] = line.rstrip("\n")
+    twins = []
+    for cid, cl in cases.items():
+        c = core.parse_case_head(cl)
+        if c["maxExpr"] == 0 or cid not in res:
+            continue
+        r = res[cid]
+        k = r.split(" ", 3)[2]
+        if k != "ret":
+            continue
+        rr = core.parse_result(r)
+        if rr["cnt"] > c["maxExpr"] or any(e.endswith("max number of expressions parsed") for e in rr["errs"]):
+            continue
+        t = cl.split(" ")
+        t[9] = "0"
+        t[1] = str(int(t[1]) + 20_000_000)
+        twins.append((cl, " ".join(t), r))
+    if not twins:
+        return []
+    tf = os.path.join(wd, "phase2.cases")
+    open(tf, "w").write(header + "\n" + "\n".join(x[1] for x in twins) + "\n")
+    of = os.path.join(wd, "phase2.impl")
+    core.run_impl(tf, of)
+    out = open(of).read().splitlines()
+    viol = []
+    sr.stats["budget_twins"] = len(twins)
+    for (cl, tl, r), o in zip(twins, out):
+        a = r.split(" ", 2)[2]
+        b = o.split(" ", 2)[2]
+        if a != b:
+            viol.append((cl, r, o, "a budget that is not exhausted changes the result (budgeted vs unbounded differ)", tl))
+    return viol
